@@ -1,5 +1,5 @@
 (** C17 — non-vacuity examples (concrete functions on which the hypotheses of the theorems hold and the
-    conclusions are non-trivial) and the witness of known finding F171. *)
+    conclusions are non-trivial). *)
 From TV Require Import Attr.Model Attr.Proofs Attr.ProofsRun Attr.ProofsSpan Attr.ProofsInterleave.
 Local Open Scope N_scope.
 
@@ -20,7 +20,7 @@ Definition f_async : func :=
   mkFunc KAsync [rec_val; rec_ref; flag; rec_val] (SSeq (SUse 0) (SSeq (SAwait 4) body1)) (EOk (ENum 5)).
 
 Definition at1 : attrs :=
-  mkAttrs (Some 2) (Some 4) None (Some (PxHelper 1)) (Some [0; 2]) [1] false
+  mkAttrs (Some 2) (Some 4) None (Some (PxHelper 1)) (Some [0; 2]) [1]
           [mkCF (FnCustom 0) FKValue (FxPrim 0 2); mkCF (FnParam 3) FKDebug (FxRec 1 3)]
           (Some (mkEv None MDefault)) (Some (mkEv (Some 2) MDebug)).
 Definition args1 (p : N) : N := match p with 2 => 1 | _ => 0 end.   (* p2 = true *)
@@ -82,18 +82,3 @@ Example ex_interleaved :
   scan_multi None (interleave [0; 1; 1; 0; 0; 1]%nat (map segments [l; l])) = Some None
   /\ length (interleave [0; 1; 1; 0; 0; 1]%nat (map segments [l; l])) = (2 * length l)%nat.
 Proof. vm_compute. split; reflexivity. Qed.
-
-(** * Known finding F171: `skip_all` is not implemented by this tree *)
-Definition at_skip_all : attrs := mkAttrs None None None None None [] true [] None None.
-
-Theorem F171_refuted :
-  exists c args f a,
-    a_skip_all a = true /\ span_on c (level_of a) = true
-    /\ exists fields,
-         filter is_newspan (fst (run c args f (expand a f)))
-         = [TNewSpan (a_name a) (level_of a) (a_target a) (parent_obs (a_parent a)) fields]
-         /\ map fst fields <> expected_names a f.
-Proof.
-  exists col_all, args1, f_sync, at_skip_all. split; [reflexivity|]. split; [reflexivity|].
-  eexists. split; [vm_compute; reflexivity|]. vm_compute. discriminate.
-Qed.
